@@ -158,6 +158,23 @@ def _judge(ctx, case, model, step, label):
   fin = bool(np.all(np.isfinite(y)))
   cal = _calibrator_ranges(model)
   if step != 0:
+    # categorical calibrators: after every update the constraint leaves the bucket values ordered along every configured
+    # pair (any acyclic pair set) - the layer-boundary form of "ordered according to every categorical monotonicity pair"
+    from tensorflow_lattice.python import categorical_calibration_layer as ccl
+    from tensorflow_lattice.python import parallel_combination_layer as pcl2
+    clayers = []
+    for l in model.layers:
+      clayers.append(l)
+      if isinstance(l, pcl2.ParallelCombination):
+        clayers.extend(l.calibration_layers)
+    for l in clayers:
+      if isinstance(l, ccl.CategoricalCalibration) and getattr(l, "built", False) and l.monotonicities:
+        K = l.kernel.numpy().astype(np.float64)
+        worst = max(float((K[a] - K[b]).max()) for a, b in l.monotonicities)
+        tk = core.REL_TOL * core.scale_of(K)
+        ctx.check("state/categorical-calibrator-ordered", worst <= tk,
+                  "calibrator %s: bucket values violate an ordering pair by %.3g (tol %.3g) after %s" % (l.name, worst, tk, label),
+                  info=dict(info, pairs=[list(p) for p in l.monotonicities], kernel=K.tolist()), ratio=max(worst, 0) / tk)
     # the value a calibrator substitutes for a missing input is a weight of its own, clipped into the calibrator's
     # bounds by its constraint after every update: judged exactly (tf.clip), at the layer boundary
     for c in cal:
@@ -241,8 +258,17 @@ def run_case(ctx, case):
   # Keras does after an update - in creation order or reversed.
   for k in range(case.get("random_updates", 2)):
     scale = float(rng.choice([0.3, 3.0, 30.0]))
+    inside = bool(rng.rand() < .5)
     for v in model.trainable_variables:
-      v.assign((rng.normal(size=v.shape) * scale + float(rng.choice([0.0, 0.0, scale]))).astype(np.float32))
+      c_ = v.constraint
+      lo_, hi_ = getattr(c_, "output_min", None), getattr(c_, "output_max", None)
+      if inside and isinstance(lo_, (int, float)) and isinstance(hi_, (int, float)) and hi_ > lo_:
+        # a bounded weight (calibrator kernels feeding a lattice): values spread over its own range rather than far outside,
+        # where the final clip would flatten everything onto a bound and hide what the projection did before it
+        r_ = hi_ - lo_
+        v.assign(rng.uniform(lo_ - 0.2 * r_, hi_ + 0.2 * r_, size=v.shape).astype(np.float32))
+      else:
+        v.assign((rng.normal(size=v.shape) * scale + float(rng.choice([0.0, 0.0, scale]))).astype(np.float32))
     order = list(model.trainable_variables)
     rev = bool(rng.rand() < .4)
     if rev:
@@ -250,7 +276,7 @@ def run_case(ctx, case):
     for v in order:
       if v.constraint is not None:
         v.assign(v.constraint(v))
-    ctx.cls("update:random+constraints", "constraint_order:%s" % ("reversed" if rev else "creation"))
+    ctx.cls("update:random+constraints", "constraint_order:%s" % ("reversed" if rev else "creation"), "update:inside-own-bounds:%s" % inside)
     r = _judge(ctx, case, model, -(k + 1), "arbitrary update (scale %g) followed by every variable's constraint (%s order)" % (scale, "reversed" if rev else "creation"))
     if r is None:
       break
